@@ -6,6 +6,9 @@ ALPHA12 = ["a", "1", "\t", " ", "\n", "\\", "/", "*", '"', "'", "?", "="]
 
 KEYWORDS = ["int", "char", "if", "else", "while", "return", "struct", "typedef", "sizeof", "static", "const", "void",
             "unsigned", "long", "NULL", "for", "do", "switch", "case", "goto", "enum", "union", "break", "continue"]
+# identifiers that compilers treat as alternate keyword spellings: plain identifiers to the tool, spelled out in the token stream
+RESERVED_LOOKING = ["__inline__", "__inline", "__restrict", "__restrict__", "__volatile__", "__const", "__signed__", "__asm__", "__attribute__",
+                    "__extension__", "__typeof__", "__signed", "__volatile", "__const__"]
 OPERATORS = [">>=", "<<=", "+=", "-=", "*=", "/=", "%=", "&=", "^=", "|=", "<=", ">=", "==", "!=", "=", ";", ":", ",", ".",
              "!", "-", "+", "*", "/", "%", "<", ">", "...", "++", "--", "->", "&&", "||", "^", "|", "~", "&", ">>", "<<",
              "?", "#"]
@@ -142,7 +145,7 @@ def lexeme(d, profile="mixed"):
     if k == "ident":
         return k, ident(d)
     if k == "kw":
-        return k, d.choice(KEYWORDS)
+        return k, d.choice(KEYWORDS + RESERVED_LOOKING)
     if k == "num":
         return k, number(d)
     if k == "num_ok":
